@@ -851,6 +851,34 @@ def rule_S4(F, R):
                 continue
         R.ok("S4", "outer: " + desc[:160])
     R.floor("S4", "outer tail paths", m, 2)
+    # order preservation: the new list starts empty and the inner loop walks the whole pending list in order
+    pushes_in = [(i, c.term(i)) for i in sorted(inner[1]) if c.term(i) and c.term(i)["k"] == "call" and any(n.endswith("Vec::<T, A>::push") for n in call_names(c.term(i)))]
+    newlists = {ref_base(fl, t["args"][0]) for (_i, t) in pushes_in}
+    for nl in sorted(x for x in newlists if x is not None):
+        bad = None
+        for d in fl.defs.get(nl, ()):
+            if d[0] == "mutcall":
+                if not any(n.endswith("Vec::<T, A>::push") for n in call_names(d[4])):
+                    bad = "is also modified by %s" % call_names(d[4])[0]
+                continue
+            if d[0] == "call" and not d[3] and any(re.search(r"Vec::<T>::(new|with_capacity)$|Vec::<T, A>::(new_in|with_capacity_in)$", n) for n in call_names(d[4])):
+                continue
+            bad = "does not start as an empty vector (%s at %s)" % (d[0], loc(_def_sp(rb, d)))
+        if bad:
+            R.violation("S4", rb["owner_fn"], "rebased-list-not-built-in-order", "the rebased list %s: operations no longer keep the order in which they were made" % bad, where(rb))
+        else:
+            R.ok("S4", "rebased list is built from empty by pushes in iteration order", where(rb))
+    hdr_calls = [(i, c.term(i)) for i in sorted(outer[1]) if c.term(i) and c.term(i)["k"] == "call" and any(n.endswith("IntoIterator::into_iter") for n in call_names(c.term(i))) and c.dominates(i, inner[0]) and i not in inner[1]]
+    if hdr_calls:
+        i, t = hdr_calls[-1]
+        sl = fl.slice_operand(t["args"][0])
+        badn = sorted({n for n in sl.call_names() if re.search(r"::(partition|filter|filter_map|rev|skip|take|step_by|sort\w*|reverse|retain|dedup\w*|skip_while|take_while)$", n)})
+        owner_b2 = F.bodies.get(rb.get("owner_fn") or "", rb)
+        from_param = any("Vec<server::op::SyncOp>" in fl.local_ty(l) and (1 <= l <= rb["argc"] or (rb["kind"] == "Closure")) for l in sl.locals) or "local_ops" in sl.upvars()
+        if badn:
+            R.violation("S4", rb["owner_fn"], "rebase-iterates-subset", "the inner rebase loop iterates the pending operations through %s: the others bypass the loop and their relative order changes" % badn[0], where(rb, i))
+        else:
+            R.ok("S4", "inner loop iterates the whole pending list in order", where(rb, i))
     # the new list replaces the old one: an assignment through the &mut Vec param from the vector pushed to
     owner_b = F.bodies.get(rb.get("owner_fn") or "", rb)
     replaced = False
